@@ -694,6 +694,13 @@ class LenEval:
                 continue
             elif isinstance(st, ast.Pass):
                 continue
+            elif isinstance(st, ast.Assign) and len(st.targets) == 1 and isinstance(st.targets[0], ast.Subscript) and isinstance(st.targets[0].value, ast.Name):
+                # v[i] = x / v[a::k] = xs keep the length of v (an extended slice must be given as many items as it has);
+                # v[a:b] = xs may change it
+                t_ = st.targets[0]
+                if isinstance(t_.slice, ast.Slice) and t_.slice.step is None and t_.value.id in env:
+                    env[t_.value.id] = (0, INF)
+                continue
             else:
                 raise Unknown(f"statement {type(st).__name__} in getter {fn.name}")
         if result is None:
